@@ -3,7 +3,7 @@ CONSTANT Names = {"x"}
 CONSTANT NameSeq <- Seq1
 CONSTANT FShapes <- Chain4
 CONSTANT FFlags <- F7
-CONSTANT FModFlags <- FMod
+CONSTANT FModFlags <- FModQ
 CONSTANT MaxScopes = 4
 CONSTANT MaxDepth = 3
 CONSTANT MaxEvStmt = 9
